@@ -4,6 +4,7 @@ package document
 import (
 	"encoding/xml"
 	"fmt"
+	"reflect"
 	"strings"
 )
 
@@ -766,46 +767,76 @@ func (t *Table) ClearTable() {
 }
 
 // CopyTable 复制表格
+//
+// 返回的表格是完整的深拷贝：表格属性、网格、行/单元格/段落/运行属性、
+// 嵌套表格以及文本的 xml:space 均被复制，且与原表格不共享任何指针或切片，
+// 修改副本不会影响原表格（反之亦然）。
 func (t *Table) CopyTable() *Table {
-	// 深拷贝表格结构
-	newTable := &Table{
-		Properties: t.Properties,
-		Grid:       t.Grid,
-		Rows:       make([]TableRow, len(t.Rows)),
+	if t == nil {
+		return nil
 	}
 
-	// 复制所有行和单元格
-	for i, row := range t.Rows {
-		newTable.Rows[i] = TableRow{
-			Properties: row.Properties,
-			Cells:      make([]TableCell, len(row.Cells)),
-		}
-
-		for j, cell := range row.Cells {
-			newTable.Rows[i].Cells[j] = TableCell{
-				Properties: cell.Properties,
-				Paragraphs: make([]Paragraph, len(cell.Paragraphs)),
-			}
-
-			// 复制段落内容
-			for k, para := range cell.Paragraphs {
-				newTable.Rows[i].Cells[j].Paragraphs[k] = Paragraph{
-					Properties: para.Properties,
-					Runs:       make([]Run, len(para.Runs)),
-				}
-
-				for l, run := range para.Runs {
-					newTable.Rows[i].Cells[j].Paragraphs[k].Runs[l] = Run{
-						Properties: run.Properties,
-						Text:       Text{Content: run.Text.Content},
-					}
-				}
-			}
-		}
-	}
+	newTable := deepCopyValue(reflect.ValueOf(t)).Interface().(*Table)
 
 	Info("表格复制成功")
 	return newTable
+}
+
+// deepCopyValue 递归复制一个值：指针、切片、映射和接口中的内容都会被复制，
+// 因此结果与原值不共享任何可变状态。
+func deepCopyValue(src reflect.Value) reflect.Value {
+	switch src.Kind() {
+	case reflect.Ptr:
+		if src.IsNil() {
+			return src
+		}
+		dst := reflect.New(src.Type().Elem())
+		dst.Elem().Set(deepCopyValue(src.Elem()))
+		return dst
+	case reflect.Interface:
+		if src.IsNil() {
+			return src
+		}
+		dst := reflect.New(src.Type()).Elem()
+		dst.Set(deepCopyValue(src.Elem()))
+		return dst
+	case reflect.Slice:
+		if src.IsNil() {
+			return src
+		}
+		dst := reflect.MakeSlice(src.Type(), src.Len(), src.Len())
+		for i := 0; i < src.Len(); i++ {
+			dst.Index(i).Set(deepCopyValue(src.Index(i)))
+		}
+		return dst
+	case reflect.Array:
+		dst := reflect.New(src.Type()).Elem()
+		for i := 0; i < src.Len(); i++ {
+			dst.Index(i).Set(deepCopyValue(src.Index(i)))
+		}
+		return dst
+	case reflect.Map:
+		if src.IsNil() {
+			return src
+		}
+		dst := reflect.MakeMapWithSize(src.Type(), src.Len())
+		iter := src.MapRange()
+		for iter.Next() {
+			dst.SetMapIndex(deepCopyValue(iter.Key()), deepCopyValue(iter.Value()))
+		}
+		return dst
+	case reflect.Struct:
+		dst := reflect.New(src.Type()).Elem()
+		dst.Set(src) // 未导出字段按值复制
+		for i := 0; i < src.NumField(); i++ {
+			if field := dst.Field(i); field.CanSet() {
+				field.Set(deepCopyValue(src.Field(i)))
+			}
+		}
+		return dst
+	default:
+		return src
+	}
 }
 
 // CellAlignment 单元格对齐方式
